@@ -73,6 +73,25 @@ def gen(tier, rng):
                         if tier == "quick" and status not in (200, 400) and i % 3:
                             continue
                         out.append((http_line(variants[i % 2], kind, ext, status, ct, body), label))
+    # long Content-Type values (every length 1..200 around typical truncation points), ASCII, two-byte and
+    # three-byte characters and opaque bytes, JSON and non-JSON media types: an error value, never a panic
+    for kind in KINDS:
+        bs = bodies(kind, rng, False)
+        label, body = bs[0]
+        for L in list(range(1, 140)) + [199, 200, 255, 256, 257, 1000, 4096, 8000]:
+            if tier == "quick" and L > 140 and L not in (256, 4096):
+                continue
+            for prefix in (b"text/html; charset=utf-8; t=", b"application/json; t="):
+                if tier == "quick" and (L + len(kind)) % 2 and prefix.startswith(b"app"):
+                    continue
+                for fill in ("a", "é", "€", b"\xff"):
+                    f = fill if isinstance(fill, bytes) else fill.encode("utf-8")
+                    v = prefix + f * (L // len(f) + 1)
+                    # cut to exactly L bytes but never inside a character of the fill
+                    cut = len(prefix) + ((max(L - len(prefix), 0)) // len(f)) * len(f)
+                    v = v[:max(cut, len(prefix))]
+                    i += 1
+                    out.append((http_line(variants[i % 2], kind, False, 200 if i % 3 else 400, v, body), "long-content-type"))
     # transport errors
     for kind in KINDS:
         for v in variants:
